@@ -33,8 +33,16 @@ static int op_bound = 5, cb_action_bound = 2;
 static int want_c04 = 1, want_c05 = 1;
 #define FD0 3
 static const int prios[] = {0, 1, 31};
-static const long long tmo_us[] = {0, 1500, 3000, 3600000000LL};	/* the last one: 1 hour, far beyond 2^31 us */
+static long long tmo_us[] = {0, 1500, 3000, 3600000000LL};	/* the last one: 1 hour, far beyond 2^31 us */
 #define NTMO 4
+/*
+ * --alt: timers are registered through events_timer_register_double() with values that are exact in binary
+ * (0, 2^-9 s, 2^-8 s, 30 days; the library truncates to whole microseconds), and the far timer lies beyond
+ * INT_MAX milliseconds, so that the poll timeout has to be clamped and the wait resumed afterwards.
+ */
+static int alt_mode;
+static const double tmo_alt_s[] = {0.0, 0.001953125, 0.00390625, 2592000.0};
+static const long long tmo_alt_us[] = {0, 1953, 3906, 2592000000000LL};
 /* just before a second boundary, so that deadlines, sleeps and poll time-outs cross it */
 #define CLOCK_START 1998000LL
 
@@ -247,8 +255,9 @@ op_reg_tmr(int t)
 	if (live_count(K_TMR) >= NTIMER) return;
 	id = new_reg(K_TMR); R[id].tmo = tmo_us[t]; R[id].deadline = now_us + tmo_us[t];
 	tv.tv_sec = (time_t)(tmo_us[t] / 1000000); tv.tv_usec = (suseconds_t)(tmo_us[t] % 1000000);
-	R[id].h = events_timer_register(callback, (void *)(uintptr_t)(id + 1), &tv);
-	mc_note("events_timer_register(%lld us) -> #%d deadline %lld", tmo_us[t], id, R[id].deadline);
+	if (alt_mode) R[id].h = events_timer_register_double(callback, (void *)(uintptr_t)(id + 1), tmo_alt_s[t]);
+	else R[id].h = events_timer_register(callback, (void *)(uintptr_t)(id + 1), &tv);
+	mc_note("events_timer_register%s(%lld us) -> #%d deadline %lld", alt_mode ? "_double" : "", tmo_us[t], id, R[id].deadline);
 	if (R[id].h == NULL) FAIL04("register", "events_timer_register failed");
 }
 static void op_cancel_imm(int j){ mc_note("events_immediate_cancel(#%d)", j); events_immediate_cancel(R[j].h); R[j].live = 0; }
@@ -415,6 +424,7 @@ main(int argc, char ** argv)
 		else if (!strcmp(argv[i], "--dev") && i + 1 < argc) dev = atoi(argv[++i]);
 		else if (!strcmp(argv[i], "--cb") && i + 1 < argc) cb_action_bound = atoi(argv[++i]);
 		else if (!strcmp(argv[i], "--nfd") && i + 1 < argc) NFD = atoi(argv[++i]);
+		else if (!strcmp(argv[i], "--alt")) { int t; alt_mode = 1; for (t = 0; t < NTMO; t++) tmo_us[t] = tmo_alt_us[t]; }
 		else if (!strcmp(argv[i], "--bits") && i + 1 < argc) { }
 	}
 	memset(&cfg, 0, sizeof(cfg));
@@ -422,7 +432,8 @@ main(int argc, char ** argv)
 	for (i = 1; i < argc; i++) if (!strcmp(argv[i], "--bits") && i + 1 < argc) cfg.table_bits = atoi(argv[i + 1]);
 	snprintf(args, sizeof(args), "[\"--ops\",\"%d\",\"--cb\",\"%d\",\"--nfd\",\"%d\"]", op_bound, cb_action_bound, NFD);
 	cfg.args_json = args;
-	vf_info("bounds", "main-context ops <= %d, callback actions <= %d, deviations <= %d, descriptors %d, timers <= %d, immediates <= %d", op_bound, cb_action_bound, dev, NFD, NTIMER, NIMM);
+	vf_info("bounds", "main-context ops <= %d, callback actions <= %d, deviations <= %d, descriptors %d, timers <= %d, immediates <= %d; timeouts %s", op_bound, cb_action_bound, dev, NFD, NTIMER, NIMM,
+	    alt_mode ? "{0, 2^-9 s, 2^-8 s, 30 days} through events_timer_register_double" : "{0, 1.5 ms, 3 ms, 1 h}");
 	teardown();	/* same starting point as every later execution */
 	if (vf_replay) {
 		int bound = dev; const char * ch;
